@@ -199,7 +199,7 @@ K_STRBITS = [
 
 PROPS["C01"] = {
     "level": "proof",
-    "verus": [{"unit": "recognisers", "rlimit": 200}, {"unit": "errors", "rlimit": 200}, {"unit": "number", "rlimit": 400}, {"unit": "walkers", "rlimit": 200}, {"unit": "iterators", "rlimit": 200}, {"unit": "strings", "rlimit": 200}, {"unit": "decoder", "rlimit": 300}, {"unit": "decoder_inplace", "rlimit": 300}, {"unit": "serde_access", "rlimit": 200}, {"unit": "unchecked", "rlimit": 400}, {"unit": "getmany", "rlimit": 300}, {"unit": "owned_load", "rlimit": 400}, {"unit": "walkers_unchecked", "rlimit": 400}, {"unit": "container", "rlimit": 400}, {"unit": "formatter", "rlimit": 200}, {"unit": "serializer", "rlimit": 300}, {"unit": "lazy_get", "rlimit": 300}],
+    "verus": [{"unit": "recognisers", "rlimit": 200}, {"unit": "errors", "rlimit": 200}, {"unit": "number", "rlimit": 400}, {"unit": "walkers", "rlimit": 200}, {"unit": "iterators", "rlimit": 200}, {"unit": "strings", "rlimit": 200}, {"unit": "decoder", "rlimit": 300}, {"unit": "decoder_inplace", "rlimit": 300}, {"unit": "serde_access", "rlimit": 200}, {"unit": "unchecked", "rlimit": 400}, {"unit": "getmany", "rlimit": 300}, {"unit": "owned_load", "rlimit": 400}, {"unit": "walkers_unchecked", "rlimit": 400}, {"unit": "container", "rlimit": 400}, {"unit": "formatter", "rlimit": 200}, {"unit": "serializer", "rlimit": 300}, {"unit": "lazy_get", "rlimit": 300}, {"unit": "dom_visitor", "rlimit": 200}, {"unit": "typed_de", "rlimit": 300}],
     "kani": K_UNICODE + K_BLOCK[3:] + K_QUOTE[1:] + K_META[:1] + K_META[2:] + K_READER + K_OWNED[:2] + K_OWNED[-1:],
     "syntactic": [{"name": "recursion guard stays alive while the nested value is visited", "fn": synt.depth_guard_held},
                   {"name": "input-driven parser recursion has a depth budget", "fn": synt.parser_recursion_bounded}],
@@ -252,6 +252,20 @@ PROPS["C03"] = {
     "level_note": "event-list half + representation kernels; the arena construction between them is not decided",
     "technique": TECH_VK,
     "explanation": "parse_value2 / parse_value: trace' == trace + value_events(text); Meta::{pack_dom_node,unpack_dom_node,pack_static_str,get_type,unpack_root}",
+}
+
+PROPS["C04"] = {
+    "level": "proof",
+    "verus": [{"unit": "typed_de", "rlimit": 300}, {"unit": "serde_access", "rlimit": 200}, {"unit": "strings", "rlimit": 200}, {"unit": "number", "rlimit": 400}],
+    "kani": [],
+    "trusted_base": [T1, T2, T4, T5, T6, T8, VSTD, PERR,
+                     "unit typed_de: the visitor is an arbitrary program — it enters as a trait with deterministic spec callbacks (on_bool, on_unit, on_none, on_str, on_u64 / on_i64 / on_f64) and, for visit_some / visit_seq / visit_map, as an opaque call that preserves the parser invariant (prophetic mut_ref_future for the access objects); declared substitutions: `self` -> `&mut self` (the trait impl is re-hosted on an inherent impl), `self.peek_invalid_type(peek, &visitor)` -> `self.peek_invalid_type_v(peek)` (the `&dyn Expected` only feeds the message), `let _ = DepthGuard::guard(self);` -> `self.depth_guard_tick()` (the guard is dropped at once: known finding F1a), `V: de::Visitor` -> the stand-in trait",
+                     "the statement's oracle (serde_json) is not executed: the reference behaviour is written from the serde data model as serde_json implements it, per entry point",
+                     "NOT under contract: deserialize_any, the ten integer / float entry points generated by impl_deserialize_number (they go through deserialize_number -> visit_number, whose dispatch is proved; range conversion to the target width is serde's visitor, T4), deserialize_i128 / u128 (scan_integer128 + std parse), deserialize_bytes, deserialize_struct / tuple (same shape as seq / map), deserialize_enum with VariantAccess / UnitVariantAccess, MapKey (quoted numbers / bools as keys), derive output"],
+    "level_text": "Verus proof of per-type entry points of the serde Deserializer: deserialize_bool accepts exactly `true` / `false` and hands the visitor that boolean; deserialize_unit exactly `null`; deserialize_option maps a complete `null` to None and starts the inner deserializer at the value otherwise; deserialize_str accepts only a string literal and hands out its decoded text, borrowed exactly when it has no escape; deserialize_ignored_any accepts exactly one well-formed value; deserialize_seq / deserialize_map accept only `[` / `{`, start the visitor on a fresh access object just after the bracket and require the closing bracket after what it consumed; visit_number dispatches each number class to its callback with the same value; plus (shared with C02 / C09 / C07) the comma-colon access machine, the borrow-or-copy string decoder and the exact integer parser",
+    "level_note": "a part of the statement: the listed entry points; agreement with serde_json for every Deserialize type is not decided (programs)",
+    "technique": TECH_V,
+    "explanation": "deserialize_bool: Ok ==> (text is `true` and res == visitor.on_bool(true)) or (`false` ...); deserialize_str: res == visitor.on_str(decoded(text), borrowed == no escape)",
 }
 
 PROPS["C12"] = {
@@ -341,7 +355,6 @@ PROPS["C05"] = {
 }
 
 NOT_APPLICABLE = {
-    "C04": "quantifies over programs (every Deserialize impl) against serde_json as oracle; no function contract within reach of Verus/Kani states it (serde visitor protocol, derive output); kernels proved under C02/C07/C09",
     "C06": "whole-pipeline fixpoint law (parser o DOM o serializer, three build configurations); not a per-function contract; ingredients proved under C02/C05/C08",
     "C11": "the statement relates every slot to the result of a single-path get for the path that was added i-th: that needs a specification of the path trie (PointerTree = nested std HashMap<FastStr,_> built through the entry API, per-node `order` lists), which Verus cannot take (no spec for std HashMap entry API) and CBMC cannot finish (SipHash HashMap + parser); with the trie opaque, what a contract CAN state about the real get_many walkers — every filled slot is the exact span of a well-formed value, the remain counter is exact, never underflows, a finished walker has validated its container — is proved in unit getmany and claimed under C14 / C01 (findings F11-F13); get_by_schema_rec works on the mutable DOM (C15 obstacles)",
     "C15": "Value is a tagged union of raw pointers/Arc<Vec>/Arc<AHashMap> with copy-on-write promotion and ref_cast facades; cannot be specified in Verus without replacing it by a model; bounded Kani histories hit the 6-38 GB class",
